@@ -32,7 +32,6 @@ func c01Triple[V univers.Version[V], VR univers.VersionRange[V]](e univers.Ecosy
 	ab := va.Compare(vb)
 	bc := vb.Compare(vc)
 	ac := va.Compare(vc)
-	vv.Assume(ab <= 0 && bc <= 0)
-	vv.Assert(ac <= 0, "C01: a<=b and b<=c but a>c")
-	vv.Assert(!(ab < 0 || bc < 0) || ac < 0, "C01: a<=b<=c with a strict step but not a<c")
+	vv.Assert(!(ab <= 0 && bc <= 0) || ac <= 0, "C01: a<=b and b<=c but a>c")
+	vv.Assert(!(ab <= 0 && bc <= 0 && (ab < 0 || bc < 0)) || ac < 0, "C01: a<=b<=c with a strict step but not a<c")
 }
